@@ -1,5 +1,5 @@
 """C12 -- classes keep their members, bases, metaclass, method kinds and super()."""
-import itertools, json, sys
+import contextlib, io, itertools, json, sys
 from common import Check, fresh_oneliner, load_known_findings, StepLimit
 import gen_prog, lower_common, par
 
@@ -35,6 +35,7 @@ def deco_new(n):
 encl = 'enclM'
 encl2 = 'encl2M'
 encl3 = 100
+gshared = 'G'
 def hookd(f):
     def w(cls, *a, **kw):
         cls.hooked = getattr(cls, 'hooked', 0) + 1
@@ -78,6 +79,9 @@ MEMBERS = {
     # the implicit class cell read by a function nested in a method and by a lambda written in the class body
     "nested-fn-class-cell": ["def nf(self):", "    def inner():", "        return (__class__.__name__, type(super(__class__, self)).__name__)", "    return inner(), (lambda: __class__.__name__)()"],
     "lambda-class-cell": ["lc = lambda self: __class__.__name__", "lc2 = lambda self: (lambda: __class__.__name__)()"],
+    # a member named like a module-level variable that a lambda of the body reads: the body's own reads (values, defaults, first iterables) see the member
+    "member-beside-lambda-global": ["gshared = 'member'", "gl = lambda self: gshared", "gv = gshared + '!'", "def gd(self, a=gshared, *, b=gshared):", "    return (a, b, gshared)",
+                                    "gfirst = [q for q in gshared][:2]", "gsame = [gshared for gshared in gshared][:2]"],
     "body-reads-enclosing": ["be = (encl, encl2)", "class Inner2:", "    bi = encl2 + '!'", "def bd(self, a=encl2):", "    return a"],
 }
 
@@ -128,7 +132,7 @@ def probe(c):
         o = c()
     except Exception as e:
         out.append(('construct', type(e).__name__)); return out
-    for call in ('o.m(1)', 'o.m(1, b=5)', 'c.s(4)', 'o.s(4)', 'c.c(3)', 'o.c(3)', 'o.p', 'o.who()', 'o.v', 'o(1)', 'repr(o)', 'o.md()', 'o.lam()', 'o.lam2()', 'o.me()', 'o.nf()', 'o.lc()', 'o.lc2()', "c.by_len(['bb', 'a'])", 'c.grow(1)', 'o.tot', 'o.pick([3, 4])', 'o.dc()', 'o.bd()', 'c.Inner2.bi', 'c.Inner().im()', 'c.Inner.z', 'c[int].__class__.__name__', "c['k']", 'o.made'):
+    for call in ('o.m(1)', 'o.m(1, b=5)', 'c.s(4)', 'o.s(4)', 'c.c(3)', 'o.c(3)', 'o.p', 'o.who()', 'o.v', 'o(1)', 'repr(o)', 'o.md()', 'o.lam()', 'o.lam2()', 'o.me()', 'o.nf()', 'o.lc()', 'o.lc2()', "c.by_len(['bb', 'a'])", 'c.grow(1)', 'o.tot', 'o.pick([3, 4])', 'o.dc()', 'o.bd()', 'o.gl()', 'o.gd()', 'c.Inner2.bi', 'c.Inner().im()', 'c.Inner.z', 'c[int].__class__.__name__', "c['k']", 'o.made'):
         try:
             out.append((call, repr(eval(call, {'o': o, 'c': c}))))
         except AttributeError:
@@ -214,7 +218,7 @@ def main(argv):
     kfs = {k["kf"]: k for k in load_known_findings("C12") if k.get("status") == "open"}
     member_sets = [[m] for m in MEMBERS] + [["attrs", "method", "static", "classmethod", "property"], ["init", "method", "super0"],
                    ["nested-class", "body-if", "body-for"], ["init-subclass", "method"], ["super2", "init"], ["dunder-call", "attrs", "class-var-in-method-default"],
-                   ["super0-enclosing", "dunder-class-enclosing", "method"], ["body-reads-enclosing", "attrs"], ["nested-lambda-members", "attrs"], ["nested-fn-class-cell", "lambda-class-cell", "method"]]
+                   ["super0-enclosing", "dunder-class-enclosing", "method"], ["body-reads-enclosing", "attrs"], ["nested-lambda-members", "attrs"], ["nested-fn-class-cell", "lambda-class-cell", "method"], ["member-beside-lambda-global", "lambda-member", "attrs"]]
     for _ in range(10 if ck.tier == "quick" else 200):
         member_sets.append(ck.rng.sample(list(MEMBERS), ck.rng.randrange(2, 6)))
     specs = []
@@ -262,12 +266,16 @@ def main(argv):
     for k in kfs.values():
         w = k.get("witness", {}).get("source")
         if w:
-            o = run(w, 'exec')
+            so, sc = io.StringIO(), io.StringIO()
+            with contextlib.redirect_stdout(so):
+                o = run(w, 'exec')
             try:
-                c = run(ol.convert_code_string(w), 'eval')
+                conv_w = ol.convert_code_string(w)
+                with contextlib.redirect_stdout(sc):
+                    c = run(conv_w, 'eval')
             except Exception as e:
                 c = ["conversion raised " + type(e).__name__]
-            if o != c:
+            if (o, so.getvalue()) != (c, sc.getvalue()):
                 ck.known(k["kf"], k["what"])
     k_bad = []
     if b["driver_ok"]:
